@@ -637,14 +637,14 @@ class ComputeGraph(MultiDiGraph):
 
             # history Jacobians
             for d_str, group in delay_groups.items():
-                j_col = 0
                 for fresh_sym, _, fj_idx in group:
                     fj_ncols = (fj_idx[1] - fj_idx[0]) if isinstance(fj_idx, tuple) else 1
+                    # column = position of the delayed variable in the state vector (not its rank in the delay group)
+                    j_col = fj_idx[0] if isinstance(fj_idx, tuple) else fj_idx
                     if not fi_is_vec and fj_ncols == 1:
                         d = sp.diff(f_i, fresh_sym)
                         if d != 0:
                             J_hist[d_str][(i_row, j_col)] = d
-                    j_col += fj_ncols
 
             i_row += fi_nrows
 
